@@ -1234,6 +1234,9 @@ def repo_class(ip, mod, name):
     for b in bases:
         if b.startswith('namedtuple('):
             return VClass(key, 'namedtuple')
+    decos = [ast.unparse(d) for d in mod.classes[name].decorator_list]
+    if any(d.startswith('attr.s') for d in decos):
+        return VClass(key, 'namedtuple')      # attrs classes: records with named fields (field order = attr.ib() order)
     return VClass(key, 'repo')
 
 
@@ -1245,6 +1248,10 @@ def namedtuple_fields(ip, key):
             spec = b.args[1]
             if isinstance(spec, ast.Constant):
                 return spec.value.replace(',', ' ').split()
+    fields = [st.targets[0].id for st in mod.classes[name].body
+              if isinstance(st, ast.Assign) and isinstance(st.value, ast.Call) and ast.unparse(st.value.func) == 'attr.ib']
+    if fields:
+        return fields
     raise EngineError(f'cannot read namedtuple fields of {key}')
 
 
@@ -1905,6 +1912,17 @@ def call_class(ip, c, args, kwargs, node, fr):
     n = c.name
     if c.ckind == 'exc':
         return VExc(n, args)
+    if c.ckind == 'ntfunc':
+        fields = c.fields
+        if len(args) + len(kwargs) != len(fields):
+            raise PyRaise(VExc('TypeError'), node)
+        items = list(args) + [kwargs[f] for f in fields[len(args):]]
+        t = VTuple(items)
+        try:
+            t._kind = KTuple(*[kind_of(resolve(ip, x)) for x in items], fields=fields, tname=None)
+        except TypeError:
+            t._kind = None
+        return t
     if c.ckind == 'namedtuple':
         fields = namedtuple_fields(ip, n)
         if len(args) + len(kwargs) != len(fields):
@@ -3306,3 +3324,13 @@ def _bisect_right(ip, args, kwargs, node, fr):
 @builtin('bisect_left')
 def _bisect_left(ip, args, kwargs, node, fr):
     return bisect_impl(ip, args, node, False)
+
+
+@builtin('namedtuple')
+def _namedtuple(ip, args, kwargs, node, fr):
+    tn, fs = resolve(ip, args[0]), resolve(ip, args[1])
+    if not (isinstance(tn, VConst) and isinstance(fs, VConst)):
+        raise EngineError('namedtuple with computed names')
+    c = VClass('nt:' + tn.py, 'ntfunc')
+    c.fields = fs.py.replace(',', ' ').split() if isinstance(fs.py, str) else list(fs.py)
+    return c
